@@ -554,6 +554,9 @@ PropDebug(c, e) ==
   /\ DbgCallsOK(c, e.a, e.calls)
   /\ DbgCallsOK(c, e.a, e.pcalls)
   /\ ~HasDebugParams(c) => (e.out = e.dout /\ e.pretty = e.dpretty)
+  \* formatting flags (width, precision, fill) are the fields' business; the probes ignore them, and names, keys and
+  \* punctuation are written verbatim: every flagged rendering equals the plain one
+  /\ \A k \in DOMAIN e.flagged : e.flagged[k] = e.out
 
 
 \* ======================================================================
